@@ -77,9 +77,11 @@ class GWCSAPIMixin(BaseHighLevelWCS, BaseLowLevelWCS):
         # ``transform`` is the transform that produced ``result``
         if transform is None:
             transform = self.forward_transform
-        if transform.uses_quantity:
-            if frame.naxes == 1:
-                result = [result]
+        results = [result] if frame.naxes == 1 else result
+        # (a transform whose parameters carry no units may still return
+        # quantities, e.g. a look-up table of quantities)
+        if transform.uses_quantity or any(isinstance(r, u.Quantity) for r in results):
+            result = results
 
             # a transform without parameters reports ``uses_quantity`` but may
             # hand back plain arrays (e.g. after bounding box masking)
